@@ -583,28 +583,49 @@ def no_order_for_invalid(text):
     return None
 
 
-JSON_STR = re.compile(r'"(?:\\"|[^"])*"', re.S)
-VALID_ESC = re.compile(r'\\(["\\/bfnrt]|u[0-9a-fA-F]{4})')
-
-
 def shape_json_string_not_loadable(text):
-    """the text contains, after a '{', a double-quoted string that JSON does not admit (a raw
-    control character or a backslash that does not start a JSON escape)"""
-    i = text.find("{")
-    if i < 0:
+    """the token stream of the text (the implementation's own lexer and parser) contains a struct
+    literal whose JSON text json.loads rejects: the JSON lexer mode accepts any characters inside
+    double quotes (raw control characters, backslashes that start no JSON escape)"""
+    import json
+    from antlr4.CommonTokenStream import CommonTokenStream
+    from antlr4.InputStream import InputStream
+    from pfdl_scheduler.parser.PFDLLexer import PFDLLexer
+    from pfdl_scheduler.parser.PFDLParser import PFDLParser
+    try:
+        lexer = PFDLLexer(InputStream(text))
+        lexer.removeErrorListeners()
+        parser = PFDLParser(CommonTokenStream(lexer))
+        parser.removeErrorListeners()
+        tree = parser.program()
+    except Exception:  # noqa: BLE001
         return False
-    for m in JSON_STR.finditer(text, i):
-        body = m.group(0)[1:-1]
-        if any(ord(ch) < 0x20 for ch in body):
-            return True
-        if "\\" in VALID_ESC.sub("", body):
-            return True
-    return False
+    found = []
+
+    def walk(n):
+        if type(n).__name__ == "Struct_initializationContext" and n.json_object() is not None:
+            try:
+                json.loads(n.json_object().getText())
+            except ValueError:
+                found.append(1)
+            except Exception:  # noqa: BLE001
+                pass
+        for c in getattr(n, "children", None) or []:
+            walk(c)
+    try:
+        walk(tree)
+    except RecursionError:
+        return False
+    return bool(found)
 
 
-def shape_json_not_loadable_generic(text):
-    """weaker companion: the text has a '{' (JSON mode is entered)"""
-    return "{" in text
+def shape_text_is_a_path(text):
+    """the program text is the name of an existing file or directory (Scheduler / parse_program
+    treat such a string as a path)"""
+    try:
+        return os.path.exists(text)
+    except (ValueError, TypeError):
+        return False
 
 
 def slice_C16(pid, cfg, tier, seed, workdir, rep, stats, findings):
@@ -675,6 +696,9 @@ def slice_C16(pid, cfg, tier, seed, workdir, rep, stats, findings):
                     if m["status"] == "exn" and m["exn"] == r["exc"]:
                         fid = attribute(known, shapes_of(m), CRASH_SHAPES)
                         stats["fuzz_exception_predicted_by_model"] += 1
+            if (fid is None and "D23-program-text-is-a-path" in known and "from Scheduler/start/fire_event" in r["why"]
+                    and shape_text_is_a_path(text)):
+                fid = "D23-program-text-is-a-path"
             if fid:
                 stats["known:" + fid] += 1
             else:
